@@ -276,24 +276,45 @@ def storeStep (ss : SS) (toks : List String) : Option (SS × String) :=
       | some d => some ({ ss with trace := tr, st := { disk := d }, opened := false }, "ok")
       | none => some (ss, "restore-error")
     | _, _ => none
-  | ["d3cut", i, b] =>
-    -- D3 classification for a cut: keys whose last tombstone (in the calls completed before the
-    -- cut) sits in a file that has since been unlinked, with no later value written
+  | "d3cut" :: i :: b :: rest =>
+    -- D3 classification for a cut (optionally of a power-loss image `f=n,…`: appends beyond the
+    -- length a file is cut back to are gone): keys that have a tombstone (in the calls completed
+    -- before the cut) in a file that has since been unlinked, with no record of the key written
+    -- after that tombstone that survives in the image
     match i.toNat?, b.toNat? with
     | some i, some _ =>
-      let pre := (ss.trace.take i).zipIdx
+      let trs : List (FName × Nat) := match rest with
+        | [tr] => if tr == "-" then [] else
+          (tr.splitOn ",").filterMap fun p =>
+            match p.splitOn "=" with
+            | [f, n] => match parseFName f, n.toNat? with
+              | some f, some n => some (f, n)
+              | _, _ => none
+            | _ => none
+        | _ => []
+      -- (call, index, end offset of the append in its file)
+      let withEnd : List (Call × Nat × Nat) :=
+        ((ss.trace.take i).zipIdx.foldl (fun (acc : List (Call × Nat × Nat) × List (FName × Nat)) (c, j) =>
+          match c with
+          | .append f p =>
+            let cur := ((acc.2.find? fun (g, _) => g == f).map (·.2)).getD 0
+            let e := cur + (encPayload p).length
+            (acc.1 ++ [(c, j, e)], (f, e) :: acc.2.filter fun (g, _) => g != f)
+          | _ => (acc.1 ++ [(c, j, 0)], acc.2)) ([], [])).1
+      let survives : Call → Nat → Bool := fun c e => match c with
+        | .append f _ => match trs.find? fun (g, _) => g == f with
+          | some (_, n) => decide (e ≤ n)
+          | none => true
+        | _ => true
       let ks := ss.keys.filter fun k =>
-        let tombs := pre.filterMap fun (c, j) => match c with
-          | .append f (.ofRec r) => if r.key == k && r.val.isNone then some (j, f) else none
-          | _ => none
-        match tombs.getLast? with
-        | none => false
-        | some (t, f) =>
-          let unlinked := pre.any fun (c, j) => j > t && (match c with | .unlink g => g == f | _ => false)
-          let laterVal := pre.any fun (c, j) => j > t && (match c with
-            | .append _ (.ofRec r) => r.key == k && r.val.isSome
-            | _ => false)
-          unlinked && !laterVal
+        withEnd.any fun (c, t, _) => match c with
+          | .append f (.ofRec r) =>
+            r.key == k && r.val.isNone &&
+            (withEnd.any fun (c2, j, _) => decide (j > t) && (match c2 with | .unlink g => g == f | _ => false)) &&
+            !(withEnd.any fun (c2, j, e2) => decide (j > t) && (match c2 with
+                | .append _ (.ofRec r2) => r2.key == k && survives c2 e2
+                | _ => false))
+          | _ => false
       some (ss, s!"d3 {ks.length} " ++ ",".intercalate (ks.map hexTok))
     | _, _ => none
   | ["nohints"] =>
